@@ -92,6 +92,11 @@ def mk_nested_case(i, rng):
     def leaf():
         counter[0] += 1
         nm = "n%d" % counter[0]
+        x = rng.random()
+        if x < 0.2 and counter[0] > 1:
+            nm = "n%d" % rng.randrange(1, counter[0])         # an account that already stands in an earlier clause
+        elif x < 0.3 and side == "src":
+            return "@world", ('acct', 'world', 0)               # (several times too)
         if side == "src":
             return "@%s allowing unbounded overdraft" % nm, ('unb', nm)
         return "@%s" % nm, ('acct', nm)
